@@ -223,8 +223,16 @@ Definition key_eq_rest (key x : str) : option str :=
 
 Definition kind_re (x : str) : option str := key_eq_rest (s "kind") x.
 
-(* LEN_RE.match: "len", "=", then the whole expression *)
-Definition len_re (x : str) : option str := key_eq_rest (s "len") x.
+(* LEN_RE.match: "len", "=", then the whole expression (group 1); or a text that consists of digits
+   only (group 2) *)
+Definition len_re (x : str) : option str :=
+  match key_eq_rest (s "len") x with
+  | Some v => Some v
+  | None => match take_while is_digit x with
+            | ((_ :: _) as ds, []) => Some ds
+            | _ => None
+            end
+  end.
 
 (* PROTO_RE.match: "*" or a word, optionally followed by a parenthesised group up to the last ")"
    -> [group 1, group 2 or ""] *)
@@ -258,8 +266,7 @@ Fixpoint char_params (args : list str) (len kind : option str) : res (option str
     | None, Some l => char_params args' (Some l) kind
     | _, _ =>
       match kind, kind_re a with
-      | None, Some k =>
-        if has_quote k then Unmodelled (s "quoted kind parameter") else char_params args' len (Some k)
+      | None, Some k => char_params args' len (Some k)
       | _, _ =>
         match len with
         | None => char_params args' (Some a) kind
@@ -278,6 +285,8 @@ Definition one_of (x : str) (l : list str) : bool := sin x l.
 (* the last part of parse_type: [args] is the text of the kind selector without white space,
    [star] says that it was written after "*" *)
 Definition finish_type (vartype rest : str) (star : bool) (args : str) : res ptype :=
+  (* _restore_strings on the kind / length: a string literal inside the selector is outside the model *)
+  if has_quote args then Unmodelled (s "quoted text in a kind or length selector") else
   if one_of vartype [s "type"; s "class"; s "procedure"] then
     match proto_re args with
     | Some p => Ok (mkpt vartype rest None None (Some p))
@@ -290,8 +299,7 @@ Definition finish_type (vartype rest : str) (star : bool) (args : str) : res pty
       if 2 <? length parts then value_error
       else
         do lk <- char_params parts None None;
-        Ok (mkpt vartype rest (snd lk)
-                 (Some (match fst lk with Some l => l | None => s "1" end)) None)
+        Ok (mkpt vartype rest (snd lk) (Some (match fst lk with Some l => l | None => s "1" end)) None)
   else
     Ok (mkpt vartype rest (Some (match kind_re args with Some k => k | None => args end)) None None).
 
@@ -493,6 +501,9 @@ Definition entity (pt : ptype) (acc : attr_acc) (lits : list str) (dec : str) : 
 (* line_to_variables on a masked line *)
 Definition line_to_variables (line : str) (lits : list str) (permission : str) : res (list var) :=
   do pt <- parse_type line;
+  (* attributes kept as text have their string literals restored: outside the model *)
+  if match attribsplit (pt_rest pt) with Some (attribstr, _) => has_quote attribstr | None => false end
+  then Unmodelled (s "quoted text in an attribute") else
   let acc0 := mkacc [] [] false permission false in
   let '(acc, declarestr) :=
     match attribsplit (pt_rest pt) with
@@ -657,6 +668,9 @@ Fixpoint pdict_get (k : str) (d : list (str * str)) : option str :=
 Record attr_state := mkas { as_attr : dict; as_param : list (str * str) }.
 
 (* the ATTRIB_RE branch of the statement loop, for a unit that has attr_dict *)
+(* _attr_key: neither letter case nor white space is significant in a name *)
+Definition attr_key (name : str) : str := lower (remove_ws name).
+
 Definition record_attribute (st : attr_state) (lits : list str) (g1 g2 : str) : res attr_state :=
   let attr := remove_blanks (lower g1) in
   if seqb attr (s "data") then Ok st
@@ -680,10 +694,10 @@ Definition record_attribute (st : attr_state) (lits : list str) (g1 g2 : str) : 
           let n := lower (strip n) in
           (* format_initial_value: like an initialisation on the declaration *)
           do v' <- restore (comma_space (remove_blanks v)) lits;
-          Ok (mkas (dict_append n attr (as_attr st)) (pdict_set n v' (as_param st)))
+          Ok (mkas (dict_append (attr_key n) attr (as_attr st)) (pdict_set n v' (as_param st)))
         | _ => Err (s "IndexError")
         end
-      else Ok (mkas (dict_append (lower (strip name)) attr (as_attr st)) (as_param st)) in
+      else Ok (mkas (dict_append (attr_key name) attr (as_attr st)) (as_param st)) in
     fold_left step (paren_split c_comma stmnt) (Ok st).
 
 (* DIM_RE.match: a word followed by a parenthesised group that ends the text *)
@@ -744,26 +758,9 @@ Definition apply_attr (params : list (str * str)) (r : res var) (attr : str) : r
     end
   else Ok (set_attribs v (v_attribs v ++ [attr])).
 
-Fixpoint dict_remove (k : str) (d : dict) : dict :=
-  match d with
-  | [] => []
-  | (k', vs) :: d' => if seqb k k' then d' else (k', vs) :: dict_remove k d'
-  end.
-
-(* the entry of a name is deleted once a variable of that name has been served: a second
-   variable with the same name gets nothing *)
-Fixpoint process_go (params : list (str * str)) (d : dict) (vars : list var) : res (list var) :=
-  match vars with
-  | [] => Ok []
-  | v :: vars' =>
-    let k := lower (v_name v) in
-    do v' <- fold_left (apply_attr params) (dict_get k d) (Ok v);
-    do rest <- process_go params (dict_remove k d) vars';
-    Ok (v' :: rest)
-  end.
-
+(* every variable of a name gets the attributes recorded for it *)
 Definition process_attribs (st : attr_state) (vars : list var) : res (list var) :=
-  process_go (as_param st) (as_attr st) vars.
+  mapM (fun v => fold_left (apply_attr (as_param st)) (dict_get (attr_key (v_name v)) (as_attr st)) (Ok v)) vars.
 
 (* ------------------------------------------------------------------ procedures *)
 Definition proc_keywords : list str :=
